@@ -46,6 +46,11 @@ def gen_entries(rng, ranks, nid, codes, p_fail):
             entries.append({'per': m})
         else:
             entries.append({'all': nid[0]}); codes[nid[0]] = rng.choice([1, 2]) if rng.random() < p_fail else 0; nid[0] += 1
+    # a command may be listed more than once (`module load x; module purge; module load x`, a counter bumped twice): it
+    # runs every time it is listed, at its place
+    if entries and rng.random() < 0.2:
+        e = rng.choice(entries)
+        entries.insert(rng.randint(0, len(entries)), {'all': e['all']} if 'all' in e else {'per': [[r, list(ids)] for r, ids in e['per']]})
     return entries
 
 
@@ -481,6 +486,7 @@ CORPUS = [
     _mk(bare=True, ranks=2, exe_codes=[0, 3]),
     _mk(startup=30, ranks=3, exe_codes=[0, 0, 5], args=['x']),     # a startup timeout on a task of several ranks
     _mk(startup=30),
+    _mk(pre=[{'all': 1}, {'all': 2}, {'all': 1}], post=[{'all': 3}, {'all': 3}], codes=[[1, 0], [2, 0], [3, 0]]),   # commands listed twice
 ]
 for c in CORPUS:
     c['codes'] = [tuple(x) for x in c['codes']]
